@@ -240,6 +240,41 @@ def _d5(chk, fb):
         else:
             chk.refuted("D5", f.key, "assign-reset:" + m, f.loc(sites[0]), "operator= refills '%s' by insertion without clearing it: the objects the observer held before the assignment stay associated" % m,
                         witness={"history": "a holds x, b holds y; a = b; a.getNumberOfNodes() counts x and y"})
+    # the slot tables (vectors indexed by graph id / index) are refilled slot by slot for the objects of the source only: a
+    # resize() to the source's size keeps what the slots held, so they have to be emptied first
+    nv = 0
+    for fl in fb.need_class(OBS)["fields"]:
+        if "vector" not in fl["ty"] or "map" in fl["ty"]:
+            continue
+        m = fl["name"]
+        w = _writes_to(f, m)
+        if not w:
+            continue
+        nv += 1
+        sites = [x for x, k, v in w]
+
+        def on_m(c):
+            return "obj" in c and render(f.obj(c)).replace("this.", "") == m
+        empt = [c for c in f.calls() if on_m(c) and c["callee"]["name"] in ("clear", "assign", "operator=", "swap")]
+        empt += [c for c in f.calls() if c["callee"]["name"] in ("fill", "fill_n") and f.args(c) and render(f.args(c)[0]).replace("this.", "").startswith(m + ".begin")]
+        empt += [x for x in f.all_nodes() if x["k"] == "BinaryOperator" and x["op"] == "=" and render(kids(x)[0]).replace("this.", "") == m]
+        helper = []
+        for c in f.calls():
+            if ("obj" not in c or strip(f.obj(c))["k"] == "CXXThisExpr") and c["callee"].get("inrepo"):
+                for t in fb.targets(c):
+                    if t.body is not None and any("obj" in y and render(t.obj(y)).replace("this.", "") == m and y["callee"]["name"] in ("clear", "assign") for y in t.calls()):
+                        helper.append(c)
+        sized = [c for c in f.calls() if on_m(c) and c["callee"]["name"] == "resize"]
+        dom = lambda c_: all(cfg.stmt_block(c_) is not None and cfg.dominates(cfg.stmt_block(c_), cfg.stmt_block(s_)) for s_ in sites)
+        if any(dom(c_) for c_ in empt + helper):
+            chk.proved("D5", f.key, "assign-reset:" + m, f.loc((empt + helper)[0]), "%s emptied before its slots are refilled" % m)
+        elif any(len(f.args(c_)) == 1 and dom(c_) for c_ in sized):
+            chk.refuted("D5", f.key, "assign-reset:" + m, f.loc(sized[0]),
+                        "operator= only resizes '%s' before refilling the slots of the source's objects: resize keeps the former elements, so a slot that is empty in the source keeps the object the observer held before the assignment" % m,
+                        witness={"history": "a holds an object at graph id 1, b holds none there (same sizes); a = b; a still answers for id 1"})
+        else:
+            chk.unknown("D5", f.key, "assign-reset:" + m, f.loc(sites[0]), "how '%s' is emptied before the refill is not in a recognised form" % m)
+    chk.floor("D5", "slot tables refilled in the observer's operator=", nv, 2)
     sub = [c for c in f.calls() if c["callee"]["name"] == "operator=" and "obj" in c and render(f.obj(c)).replace("this.", "") == "subjectGraph_"] + \
           [x for x in f.all_nodes() if x["k"] == "BinaryOperator" and x["op"] == "=" and render(kids(x)[0]).replace("this.", "") == "subjectGraph_"]
     unreg = [c for c in f.calls() if c["callee"]["name"] == "unregisterObserver"]
@@ -405,11 +440,13 @@ def _d7(chk, fb):
                 if gi is not None and "cond" in gi:
                     import re as _re
                     ct = render(f.nodes[gi["cond"]], local_inits(f))
-                    m_ = _re.match(r"^\((nodeStructure_|edgeStructure_)\.find\((\w+)\) == \1\.end\(\)\)$", ct)
+                    m_ = _re.match(r"^\((nodeStructure_|edgeStructure_)\.find\((\w+)\) == \1\.end\(\)\)$", ct) or \
+                        _re.match(r"^\((nodeStructure_|edgeStructure_)\.(?:erase|count)\((\w+)\) == 0\)$", ct) or \
+                        _re.match(r"^\(?!\(?(nodeStructure_|edgeStructure_)\.(?:erase|count)\((\w+)\)\)?\)?$", ct)
                     if m_:
                         want = ("nodeMustExist_" if m_.group(1) == "nodeStructure_" else "edgeMustExist_")
                         pre = [c for c in f.calls() if c["callee"]["name"] == want and f.args(c) and render(f.args(c)[0]) == m_.group(2) and cfg.dominates(cfg.stmt_block(c), tb)]
-                        erased = [c for c in f.calls() if c["callee"]["name"] == "erase" and "obj" in c and render(f.obj(c)) == m_.group(1) and e1.before_in_function(cfg, c, t)]
+                        erased = [c for c in f.calls() if c["callee"]["name"] == "erase" and "obj" in c and render(f.obj(c)) == m_.group(1) and e1.before_in_function(cfg, c, t) and not f.contains(f.nodes[gi["cond"]], c)]
                         if pre and not erased:
                             continue
                 after = (wb == tb and e1.earlier_in_block(cfg, w, t)) or (wb != tb and e1.path_exists(cfg, wb, tb))
@@ -559,6 +596,84 @@ def _d10(chk, fb):
     chk.floor("D10", "neighbour iterator constructors", n, 8)
 
 
+def _d12(chk, fb):
+    """the observer's node / edge iterators stand only on graph elements that have an associated object: every member that moves
+    the underlying graph iterator (it_.start(), it_.next()) then runs the skip loop - a loop that tests the object of *it_ and
+    advances it_ - on every path to its exit.  start() and next() of one class are siblings: when one of them skips and the other
+    moves without skipping, the latter is refuted; a class in which no member skips is not judged"""
+    import re
+    groups = {}
+    for f in fb.concrete_fns():
+        if f.body is None or not re.search(r"::(Node|Edge)IteratorClass<[^<>]*>$", f.cls or "") or "AssociationGraphImplObserver<" not in (f.cls or ""):
+            continue
+        groups.setdefault(f.cls, []).append(f)
+
+    def on_it(f, c, names):
+        return c["callee"]["name"] in names and "obj" in c and render(f.obj(c)).replace("this.", "") == "it_"
+
+    def skip_loops(f):
+        out = []
+        for lp in f.all_nodes():
+            if lp["k"] not in ("WhileStmt", "ForStmt", "DoStmt") or "cond" not in lp:
+                continue
+            cond = f.nodes[lp["cond"]]
+            tests = any(is_call(x) and x["callee"]["name"] != "end" and any("*it_" in render(a).replace("this.", "") or "*(it_)" in render(a).replace("this.", "") for a in f.args(x)) for x in walk(cond))
+            adv = any(is_call(x) and on_it(f, x, ("next", "operator++")) for x in walk(lp) if not f.contains(cond, x))
+            if tests and adv:
+                out.append(lp)
+        return out
+    n = 0
+    for cls, fns in sorted(groups.items()):
+        byname = {f.name: f for f in fns}
+
+        def skips(f, depth=0):
+            if skip_loops(f):
+                return True
+            if depth < 2:
+                for c in f.calls():
+                    if ("obj" not in c or strip(f.obj(c))["k"] == "CXXThisExpr") and c["callee"]["name"] in byname and byname[c["callee"]["name"]] is not f:
+                        if skips(byname[c["callee"]["name"]], depth + 1):
+                            return True
+            return False
+        movers = [f for f in fns if f.name in ("start", "next") and any(on_it(f, c, ("start", "next", "operator++")) for c in f.calls())]
+        if not movers:
+            continue
+        any_skip = any(skips(f) for f in movers)
+        for f in sorted(movers, key=lambda x: x.name):
+            n += 1
+            con = "skips-unassociated:" + f.name
+            cfg = f.cfg
+            loops = skip_loops(f)
+            if loops:
+                # every move outside the loops is followed by a skip loop on every path
+                heads = set()
+                for lp in loops:
+                    b = cfg.stmt_block(f.nodes[lp["cond"]])
+                    if b is not None:
+                        heads.add(b)
+                bad = None
+                for c in f.calls():
+                    if on_it(f, c, ("start", "next", "operator++")) and not any(f.contains(lp, c) for lp in loops):
+                        ok, path = e1.must_pass(cfg, heads, start=cfg.stmt_block(c))
+                        if not ok and cfg.stmt_block(c) not in heads:
+                            bad = (c, path)
+                if bad:
+                    chk.refuted("D12", f.key, con, f.loc(bad[0]), "%s() moves the graph iterator (%s) on a path that leaves without running the loop that skips graph elements without an object" % (f.name, render(bad[0])),
+                                witness={"history": "an observer that does not associate an object with every node of the graph; walk its iterator and dereference", "blocks": bad[1]})
+                else:
+                    chk.proved("D12", f.key, con, f.loc(), "every move of it_ is followed by the skip loop")
+            elif skips(f):
+                chk.proved("D12", f.key, con, f.loc(), "delegates to a member that skips")
+            elif any_skip:
+                other = [g.name for g in movers if g is not f and skips(g)]
+                chk.refuted("D12", f.key, con, f.loc(),
+                            "%s() moves the graph iterator and stops on whatever graph element comes next, while %s() of the same class skips the elements that have no object in this observer: the iterator can stand on an unassociated element, and operator*() then returns a null object although end() is false" % (f.name, "/".join(other)),
+                            witness={"history": "a graph whose first node (or first neighbour) has no object in this observer; iterate with start()/end()/operator*"})
+            else:
+                chk.unknown("D12", f.key, con, f.loc(), "no member of this iterator class skips unassociated elements: the rule has no instance to compare with")
+    chk.floor("D12", "position-moving members of the observer's iterators", n, 8)
+
+
 def _d11(chk, fb):
     """snapshot freshness: a local list obtained from a query of the graph structure (neighbours, edges) and then consumed by a
     loop must not have a write to that structure between the query and the start of its loop - the list then names relations
@@ -638,7 +753,7 @@ def run(chk, fb, tier):
     chk.rule("D2", "link: helper(a,b) always and helper(b,a) under '!directed_'; unlink: the inverse helper with the same two call shapes")
     chk.rule("D3", "a non-private GlobalGraph member that erases from nodeStructure_ (edgeStructure_), directly or via a private helper, reaches notifyDeletedNodes (notifyDeletedEdges) afterwards on every normal path")
     chk.rule("D4", "an observer member erasing from NToGraphid_ (EToGraphid_) also erases from NToIndex_ (EToIndex_) and resets the indexToN_ (indexToE_) slot")
-    chk.rule("D5", "observer operator=: maps refilled by insertion are cleared first; unregisterObserver(old) precedes the switch of subjectGraph_, registerObserver follows it")
+    chk.rule("D5", "observer operator=: maps refilled by insertion are cleared first; slot tables (vectors) refilled slot by slot are emptied first (resize alone keeps the old slots); unregisterObserver(old) precedes the switch of subjectGraph_, registerObserver follows it")
     chk.rule("D6", "writes A[k] = v and B[v'] = k' to inverse map pairs in one block satisfy k == k' and v == v'")
     chk.rule("D7", "in every non-private GlobalGraph member no explicit refusal (throw, *MustExist_ test) is reachable after a write to the node/edge structures")
     _d1(chk, fb)
@@ -656,4 +771,6 @@ def run(chk, fb, tier):
     _d10(chk, fb)
     chk.rule("D11", "a list queried from the graph structure and consumed by a loop is not preceded, between the query and that loop, by a write to the structure")
     _d11(chk, fb)
+    chk.rule("D12", "E5 sibling agreement: start() and next() of the observer's node / edge iterator classes both run the loop that skips graph elements without an associated object after moving the graph iterator")
+    _d12(chk, fb)
     chk.assume("unchecked map::find results on absent ids inside protected GlobalGraph members are undefined behaviour that the installed libstdc++ tolerates (an exception is still raised): not asserted")
